@@ -1,8 +1,40 @@
 """C11 worker: serializable / JSON / bytes / pickle / copy round trips of BQMs and sample sets,
-COO text, Variables.to_serializable, serialize_ndarray."""
+COO text, Variables.to_serializable, serialize_ndarray.
+
+Coverage of the property text, clause by clause (stream = `kind` of the generated case):
+
+  to_serializable -> from_serializable of a BQM            bqm, routes ser / ser_json / ser_json_decoder / ser_bytes
+    labels incl. nested tuples, ints beyond 2^53, floats,    pick_labels styles int / str / float / tuple / mixed / sparse / perm / range
+      exact ranges, shuffled and sparse integer sets
+    vartype, offset, all biases                              compared in Coq (KBqm: coefficients + emitted vectors)
+    dtype float64 / float32 / object (Python ints/floats)    dtype, obj_ints
+    use_bytes, bytes_type=bytearray, bias_dtype (deprecated) ser_bytes + bytes_type / bias_dtype keys
+    .spin / .binary views (pure-Python to_numpy_vectors)     view key (ser*, deepcopy, method_copy)
+  DimodDecoder on a BQM document                            ser_json_decoder          (DimodEncoder does not encode BQMs)
+  pickle protocols 2-5, copy.deepcopy, copy.copy, .copy()   bqm / ss routes pickle2..5, deepcopy, copy, method_copy
+  SampleSet to/from_serializable                            ss: vartypes SPIN/BINARY/INTEGER/DISCRETE/REAL x sample dtypes x
+                                                            use_bytes x bytes_type x pack_samples x JSON text; 0-70 (130) variables, 0-5 rows
+    every labelled value, energies, num_occurrences,         worker (exact ==, dtype, shape) + Coq (KSS rows / packed words, KLabels)
+      extra 1-d / 2-d vectors
+    info incl. arrays, nested dicts/lists, NumPy scalars     gen_info (KInfo walk in Coq); bool / 'type' marker dicts: corpus (open findings)
+    empty sample sets (no rows / no variables)               n = 0, nrows = 0
+  DimodEncoder / DimodDecoder on a SampleSet                route encoder; `wrap`: nested inside other JSON data
+  deferred (future-backed) sample sets                      defer: future / future_id (wait_id) / hook / late / relabel_inplace /
+                                                            relabel_copy / change_vartype / nested; defer_main (to_serializable on the
+                                                            untouched deferred set), touch (resolved before the route)
+  COO text                                                  coo (+ KCooText / KCooLines at character level)
+  Variables.to_serializable (int, float, str, nested tuple) labels (incl. NumPy scalar labels)
+  serialize_ndarray (float -> int compaction)               arr
+  other model classes (not named by the property)           model: QM / CQM / DQM / BinaryPolynomial / Variables through the copy and
+                                                            pickle routes each class offers (worker-compared)
+Not reached: bytes_type other than bytes/bytearray (e.g. bson.Binary); sample sets with more than 130 variables;
+to_file/from_file (C13); legacy (< 3.0.0) documents (refused by from_serializable).
+"""
 import copy
+import concurrent.futures
 import json
 import pickle
+import warnings
 from fractions import Fraction
 
 import numpy as np
@@ -27,6 +59,9 @@ TUP_LABELS = [('t', 1), ('t', (1, 2)), ('a', ('b', ('c', 3))), (), (4,), ((),), 
 BQM_ROUTES = ['ser', 'ser_json', 'ser_json_decoder', 'ser_bytes', 'pickle2', 'pickle3', 'pickle4', 'pickle5',
               'deepcopy', 'copy', 'method_copy']
 SS_ROUTES = ['none', 'encoder', 'pickle2', 'pickle3', 'pickle4', 'pickle5', 'deepcopy', 'copy', 'method_copy']
+# deferred sample sets (SampleSet.from_future): plain future, future with wait_id, custom result hook,
+# hooks installed on a not-yet-done set by relabel_variables (in place / copy) and change_vartype
+DEFER_MODES = ['future', 'future_id', 'hook', 'late', 'relabel_inplace', 'relabel_copy', 'change_vartype', 'nested']
 SS_DTYPES = {'BINARY': ['int8', 'int8', 'int32', 'int64', 'uint8', 'bool', 'float32', 'float64', 'int16'],
              'SPIN': ['int8', 'int8', 'int32', 'int64', 'float32', 'float64', 'int16'],
              'INTEGER': ['int8', 'int32', 'int64', 'float64', 'int16', 'float32'],
@@ -37,7 +72,7 @@ SS_DTYPES = {'BINARY': ['int8', 'int8', 'int32', 'int64', 'uint8', 'bool', 'floa
 # generation
 
 def pick_labels(rng, n, style=None):
-    style = style or rng.choice(['int', 'str', 'mixed', 'tuple', 'mixed', 'float', 'sparse', 'sparse', 'sparse', 'perm'])
+    style = style or rng.choice(['int', 'str', 'mixed', 'tuple', 'mixed', 'float', 'sparse', 'sparse', 'sparse', 'perm', 'range'])
     if style == 'sparse':
         # small non-negative integers that are not 0..n-1 (qubit-index-like): dense enough that labels fall
         # among the indices and just above them, where relabelling has to go through intermediate labels
@@ -86,6 +121,12 @@ def gen_info(rng, depth=0):
     r = rng.random()
     if depth > 2 or r < 0.25:
         # no booleans: serialize_ndarrays turns True into 1 (reported separately, corpus info_bool)
+        if rng.random() < 0.3:
+            # NumPy scalars (solver timing fields are often np.float64 / np.int64): Number -> float, Integral -> int
+            dt = rng.choice(['float64', 'float32', 'int64', 'int8', 'uint16', 'float16'])
+            if dt == 'float64' and rng.random() < 0.5:
+                return {"__np__": dt, "v": rng.choice(["3602879701896397/36028797018963968", "1/3", "2476979795053773/2251799813685248"])}
+            return {"__np__": dt, "v": str(rng.dyadic(9, 2)) if dt.startswith('float') else rng.randint(0, 100)}
         return rng.choice([1, -7, 2.5, 2.0, "s", None, 10 ** 15, "", 0.001])
     if r < 0.5:
         shape = rng.choice([[3], [2, 2], [0], [2, 0], [1, 3, 2], []])
@@ -101,6 +142,58 @@ def gen_info(rng, depth=0):
     return {rng.choice(['a', 'b', 'timing', 'k k', 'type_', '']): gen_info(rng, depth + 1) for _ in range(rng.randint(0, 3))}
 
 
+MODEL_ROUTES = ['pickle2', 'pickle3', 'pickle4', 'pickle5', 'deepcopy', 'copy', 'method_copy']
+
+
+def gen_model(rng):
+    """pickle / copy / deepcopy of the other model classes: QuadraticModel, ConstrainedQuadraticModel,
+    DiscreteQuadraticModel, BinaryPolynomial, Variables (compared field by field by the worker)"""
+    cls = rng.choice(['qm', 'qm', 'cqm', 'cqm', 'dqm', 'poly', 'vars'])
+    n = rng.choice([0, 1, 2, 3, 5])
+    labels = pick_labels(rng, n, rng.choice(['int', 'str', 'mixed', 'tuple', 'sparse', 'perm', 'range']))
+    vts = []
+    for _ in labels:
+        vt = rng.choice(['BINARY', 'SPIN', 'INTEGER', 'REAL'])
+        lb, ub = None, None
+        if vt in ('INTEGER', 'REAL') and rng.random() < 0.7:
+            lb = rng.choice([0, -3, 1, -7]); ub = lb + rng.choice([0, 1, 5, 100])
+        vts.append([vt, lb, ub])
+
+    def expr():
+        lin = [[enc_label(l), str(rng.dyadic(8, 2))] for l in labels if rng.random() < 0.7]
+        quad = []
+        for i in range(n):
+            for j in range(i, n):
+                if (i != j and rng.random() < 0.4 and 'REAL' not in (vts[i][0], vts[j][0])) or \
+                        (i == j and vts[i][0] == 'INTEGER' and rng.random() < 0.3):
+                    quad.append([enc_label(labels[i]), enc_label(labels[j]), str(rng.dyadic(8, 2))])
+        return {"lin": lin, "quad": quad, "off": str(rng.dyadic(8, 2) if rng.random() < 0.6 else Fraction(0))}
+    d = {"kind": "model", "cls": cls, "labels": [enc_label(l) for l in labels], "vts": vts, "obj": expr(),
+         "route": rng.choice(MODEL_ROUTES), "dtype": rng.choice(['float64', 'float64', 'float32'])}
+    # pickling is not offered by QuadraticModel / ConstrainedQuadraticModel / DiscreteQuadraticModel (TypeError from
+    # the extension types), nor copy.copy / .copy() by the CQM, nor deepcopy by the DQM: only the offered routes
+    offered = {'qm': ['deepcopy', 'copy', 'method_copy'], 'cqm': ['deepcopy'], 'dqm': ['copy', 'method_copy']}
+    if cls in offered:
+        d["route"] = rng.choice(offered[cls])
+    if cls == 'cqm':
+        d["cons"] = [dict(expr(), sense=rng.choice(['<=', '>=', '==']), rhs=str(rng.dyadic(8, 1)),
+                          label=rng.choice([None, 'c%d' % k, k, ('c', k)]),
+                          weight=rng.choice([None, None, "3/2"]), penalty=rng.choice(['linear', 'quadratic']))
+                     for k in range(rng.randint(0, 3))]
+        d["discrete"] = rng.random() < 0.3
+    if cls == 'dqm':
+        d["ncases"] = [rng.randint(1, 3) for _ in labels]
+        d["dlin"] = [[str(rng.dyadic(8, 1)) for _ in range(k)] for k in d["ncases"]]
+        d["dquad"] = [[i, j, [[a, b, str(rng.dyadic(8, 1))] for a in range(d["ncases"][i]) for b in range(d["ncases"][j])
+                               if rng.random() < 0.5]]
+                      for i in range(n) for j in range(i + 1, n) if rng.random() < 0.5]
+    if cls == 'poly':
+        d["terms"] = [[[enc_label(l) for l in rng.sample(labels, rng.randint(0, min(n, 3)))], str(rng.dyadic(8, 2))]
+                      for _ in range(rng.randint(0, 5))]
+        d["vartype"] = rng.choice(['SPIN', 'BINARY'])
+    return d
+
+
 def gen_case(rng, tier):
     r = rng.random()
     if r < 0.36:
@@ -113,6 +206,11 @@ def gen_case(rng, tier):
         # vectors, fractional offsets over all-int biases, all-int models)
         d.update({"kind": "bqm", "dtype": dtype, "route": rng.choice(BQM_ROUTES),
                   "obj_ints": dtype == 'object' and rng.random() < 0.5})
+        # keyword options of to_serializable and the vartype views (which serialise through the pure-Python
+        # to_numpy_vectors like object-dtype models do)
+        d["view"] = rng.choice([None, None, None, 'spin', 'binary']) if d["route"].startswith('ser') or d["route"] in ('deepcopy', 'method_copy') else None
+        d["bytes_type"] = rng.choice(['bytes', 'bytes', 'bytearray'])
+        d["bias_dtype"] = rng.random() < 0.1
         if (d["obj_ints"] and d["route"] == 'ser_bytes' and d["quad"] and Fraction(d["off"]).denominator == 1
                 and all(Fraction(x[-1]).denominator == 1 for x in d["lin"] + d["quad"])):
             # all-integer object model as bytes: open finding obj_bqm_bytes_all_int (bias_type int64 is written
@@ -144,6 +242,8 @@ def gen_case(rng, tier):
             labels[0] = {"np": rng.choice(['int64', 'int8', 'float32', 'float64']), "v": rng.choice([3, 11, 2.5, 2 ** 53 + 1, -(2 ** 62 + 1)])}
             return {"kind": "labels", "labels": [labels[0]] + [enc_label(l) for l in labels[1:]], "json": rng.random() < 0.6}
         return {"kind": "labels", "labels": [enc_label(l) for l in labels], "json": rng.random() < 0.6}
+    if 0.60 <= r < 0.66:
+        return gen_model(rng)
     if r < 0.60:
         shape = rng.choice([[4], [2, 3], [0], [2, 0], [0, 2], [2, 1, 2], [1], [3, 33]])
         dt = rng.choice(['float64', 'float32', 'float16'])
@@ -200,7 +300,12 @@ def gen_case(rng, tier):
             "energy": [str(rng.dyadic(20, 2)) for _ in range(nrows)],
             "nocc": [rng.choice([1, 1, 2, 7, 1000]) for _ in range(nrows)] if rng.random() < 0.6 else None,
             "vectors": vectors, "info": info, "use_bytes": rng.random() < 0.35, "pack": rng.random() < 0.65,
-            "json": rng.random() < 0.6, "route": rng.choice(SS_ROUTES)}
+            "json": rng.random() < 0.6, "route": rng.choice(SS_ROUTES),
+            # deferred (future-backed) sample sets: how the object handed to the route / to to_serializable is made
+            "defer": rng.choice([None, None, None] + DEFER_MODES) if vt in ('SPIN', 'BINARY') or rng.random() < 0.5
+            else rng.choice([None] + DEFER_MODES[:4]),
+            "defer_main": rng.random() < 0.5, "touch": rng.random() < 0.3,
+            "bytes_type": rng.choice(['bytes', 'bytes', 'bytearray']), "wrap": rng.random() < 0.3}
 
 
 # ----------------------------------------------------------------------------
@@ -319,6 +424,8 @@ def info_from(j):
     if isinstance(j, dict):
         if "__arr__" in j:
             return arr_from(j)
+        if "__np__" in j:
+            return np.dtype(j["__np__"]).type(float(Fraction(j["v"])) if isinstance(j["v"], str) else j["v"])
         return {k: info_from(v) for k, v in j.items()}
     if isinstance(j, list):
         return [info_from(x) for x in j]
@@ -355,6 +462,12 @@ def diff_info(path, a, b):
             d = diff_info(f"{path}[{i}]", x, y)
             if d:
                 return d
+        return None
+    if isinstance(a, np.generic) and not isinstance(a, np.bool_):
+        # a NumPy scalar comes back as the Python number of the same kind and value
+        want = int if isinstance(a, np.integer) else float
+        if not (type(b) is want or type(b) is type(a)) or b != a:
+            return f"{path}: {a!r} ({type(a).__name__}) -> {b!r} ({type(b).__name__})"
         return None
     if type(a) is not type(b) or a != b:
         return f"{path}: {a!r} -> {b!r}"
@@ -471,7 +584,11 @@ def obs_bqm(m, T):
 def run_bqm(c):
     bqm = build_bqm(c)
     route = c["route"]
-    feats = {"kind": "bqm", "route": route, "dtype": c["dtype"],
+    if c.get("view"):
+        # the other-vartype view of the model (same adjacency, transformed on the fly); what is
+        # serialised / copied must be what the view itself shows
+        bqm = bqm.spin if c["view"] == 'spin' else bqm.binary
+    feats = {"kind": "bqm", "route": route, "dtype": c["dtype"], "view": c.get("view") or "no",
              "nested_tuple_label": any(isinstance(l, tuple) and any(isinstance(x, tuple) for x in l) for l in bqm.variables),
              "obj_ints": bool(c.get("obj_ints"))}
     if c.get("obj_ints"):
@@ -485,7 +602,14 @@ def run_bqm(c):
     doc = None
     try:
         if route.startswith('ser'):
-            doc = bqm.to_serializable(use_bytes=(route == 'ser_bytes'))
+            kw = {}
+            if c.get("bytes_type") == 'bytearray':
+                kw["bytes_type"] = bytearray
+            if c.get("bias_dtype"):
+                kw["bias_dtype"] = np.float32      # deprecated, documented to do nothing
+            with warnings.catch_warnings():
+                warnings.simplefilter("ignore", DeprecationWarning)
+                doc = bqm.to_serializable(use_bytes=(route == 'ser_bytes'), **kw)
             if route == 'ser':
                 new = dimod.BinaryQuadraticModel.from_serializable(doc)
             elif route == 'ser_json':
@@ -524,7 +648,7 @@ def run_bqm(c):
     if len(la) != len(lb) or not all(any(same_label(x, y) for y in lb) for x in la):
         py_fail = f"variables {la!r} -> {lb!r} ({route})"
     elif route in ('ser_bytes', 'deepcopy', 'copy', 'method_copy') or route.startswith('pickle'):
-        if c["dtype"] != 'object' and new.dtype != bqm.dtype:
+        if c["dtype"] != 'object' and not c.get("view") and new.dtype != bqm.dtype:
             py_fail = f"dtype {bqm.dtype} -> {new.dtype} ({route})"
         if route in ('deepcopy', 'copy', 'method_copy') and la != lb:
             py_fail = f"variable order {la!r} -> {lb!r} ({route})"
@@ -666,11 +790,54 @@ def build_ss(c):
                                         info=info_from(c["info"]), **kw, **vectors)
 
 
+class FutId(concurrent.futures.Future):
+    def wait_id(self, timeout=None):
+        return "0a1b-problem-id"
+
+
+def build_deferred(c):
+    """the sample set of the case behind SampleSet.from_future, never touched"""
+    mode = c.get("defer")
+    base = build_ss(c)
+    if not mode:
+        return base
+    fut = FutId() if mode == 'future_id' else concurrent.futures.Future()
+    if mode == 'hook':
+        # the future's result is not a sample set: a lambda hook (unpicklable) builds it
+        ss = dimod.SampleSet.from_future(fut, lambda f: dimod.SampleSet(*f.result()))
+        fut.set_result((base.record, base.variables, base.info, base.vartype))
+        return ss
+    ss = dimod.SampleSet.from_future(fut)
+    if mode in ('future', 'future_id'):
+        fut.set_result(base)
+        return ss
+    # from here on: operations applied while the future is NOT done (they install further hooks)
+    if mode == 'relabel_inplace':
+        ss = ss.relabel_variables({}, inplace=True)
+    elif mode == 'relabel_copy':
+        ss = ss.relabel_variables({}, inplace=False)
+    elif mode == 'change_vartype':
+        ss = ss.change_vartype(base.vartype, inplace=True)
+    elif mode == 'nested':
+        ss = dimod.SampleSet.from_future(ss, lambda inner: inner)
+    fut.set_result(base)
+    return ss
+
+
 def run_ss(c):
-    ss = build_ss(c)
-    vtn = ss.vartype.name if ss.vartype.name in ('SPIN', 'BINARY', 'INTEGER', 'REAL') else vt_name(c["vartype"])
-    sample = ss.record.sample
-    n = len(ss.variables)
+    ref = build_ss(c)
+    try:
+        ss = build_deferred(c) if c.get("defer") and c.get("defer_main") else ref
+        route_obj = build_deferred(c) if c.get("defer") else ss
+        if c.get("defer") and c.get("touch"):
+            len(route_obj), route_obj.record   # used (hence resolved) before it is copied / pickled
+    except Exception as e:
+        return {"py_fail": f"SampleSet.from_future ({c.get('defer')}) raised {type(e).__name__}: {e}",
+                "features": {"kind": "ss", "defer": c.get("defer") or "no"}}
+    # (nothing below may touch a deferred `ss` before to_serializable does)
+    vtn = ref.vartype.name if ref.vartype.name in ('SPIN', 'BINARY', 'INTEGER', 'REAL') else vt_name(c["vartype"])
+    sample = ref.record.sample
+    n = len(ref.variables)
     intd = bool(np.issubdtype(sample.dtype, np.integer) or np.issubdtype(sample.dtype, np.bool_))
     def has_bool(j):
         if isinstance(j, dict):
@@ -687,14 +854,17 @@ def run_ss(c):
             return any(has_marker(v) for v in j)
         return False
     feats = {"kind": "ss", "info_bool": has_bool(c["info"]), "info_type_marker": has_marker(c["info"]), "vartype": c["vartype"], "use_bytes": c["use_bytes"], "pack": c["pack"], "route": c["route"],
-             "two_words": n > 32, "dtype": str(sample.dtype)}
+             "two_words": n > 32, "dtype": str(sample.dtype), "defer": c.get("defer") or "no"}
+    bt = {"bytes_type": bytearray} if c.get("bytes_type") == 'bytearray' else {}
     try:
-        doc = ss.to_serializable(use_bytes=c["use_bytes"], pack_samples=c["pack"])
+        doc = ss.to_serializable(use_bytes=c["use_bytes"], pack_samples=c["pack"], **bt)
         doc2 = json.loads(json.dumps(doc)) if (c["json"] and not c["use_bytes"]) else doc
         new = dimod.SampleSet.from_serializable(doc2)
     except Exception as e:
         return {"py_fail": f"SampleSet serializable round trip raised {type(e).__name__}: {e}", "features": feats}
-    py_fail = diff_samplesets(ss, new, "to/from_serializable")
+    py_fail = diff_samplesets(ref, new, "to/from_serializable")
+    if ss is not ref:
+        py_fail = py_fail or diff_samplesets(ref, ss, "SampleSet.from_future(...) resolved")
     emitted_arr = decode_ndarray_doc(doc["sample_data"])
     if doc["sample_packed"]:
         if emitted_arr.dtype != np.uint32:
@@ -726,8 +896,17 @@ def run_ss(c):
     if route != 'none':
         try:
             if route == 'encoder':
-                text = json.dumps(ss, cls=DimodEncoder)
-                other = json.loads(text, cls=DimodDecoder)
+                if c.get("wrap"):
+                    # a sample set nested inside other JSON data
+                    wtext = json.dumps({"results": [route_obj, 3], "n": 1}, cls=DimodEncoder)
+                    wother = json.loads(wtext, cls=DimodDecoder)
+                    other = wother["results"][0]
+                    text = json.dumps(json.loads(wtext)["results"][0])
+                    if wother["results"][1:] != [3] or wother["n"] != 1:
+                        py_fail = py_fail or "DimodDecoder changed the data around a nested sample set"
+                else:
+                    text = json.dumps(route_obj, cls=DimodEncoder)
+                    other = json.loads(text, cls=DimodDecoder)
                 d3 = json.loads(text)
                 em = decode_ndarray_doc(d3["sample_data"])
                 if d3["sample_packed"]:
@@ -737,17 +916,19 @@ def run_ss(c):
                 extra.append(f"(KSS {vtn} {cbool(intd)} true {cnat(n)} {coq_rows(sample)} {em_t} "
                              f"{other.vartype.name if other.vartype.name in ('SPIN', 'BINARY', 'INTEGER', 'REAL') else 'INTEGER'} {coq_rows(other.record.sample)})")
             elif route.startswith('pickle'):
-                other = pickle.loads(pickle.dumps(ss, protocol=int(route[6:])))
+                other = pickle.loads(pickle.dumps(route_obj, protocol=int(route[6:])))
             elif route == 'deepcopy':
-                other = copy.deepcopy(ss)
+                other = copy.deepcopy(route_obj)
             elif route == 'copy':
-                other = copy.copy(ss)
+                other = copy.copy(route_obj)
             else:
-                other = ss.copy()
+                other = route_obj.copy()
             if not isinstance(other, dimod.SampleSet):
                 py_fail = py_fail or f"{route} returned a {type(other).__name__}"
             else:
-                py_fail = py_fail or diff_samplesets(ss, other, route)
+                py_fail = py_fail or diff_samplesets(ref, other, route)
+                if route_obj is not ss:
+                    py_fail = py_fail or diff_samplesets(ref, route_obj, f"the deferred original after {route}")
                 if route != 'encoder':
                     extra.append(f"(KSS {vtn} {cbool(intd)} false {cnat(n)} {coq_rows(sample)} (Raw {coq_rows(other.record.sample)}) "
                                  f"{other.vartype.name if other.vartype.name in ('SPIN', 'BINARY', 'INTEGER', 'REAL') else 'INTEGER'} {coq_rows(other.record.sample)})")
@@ -756,8 +937,149 @@ def run_ss(c):
     return {"coq": coq, "extra_coq": extra, "py_fail": py_fail, "features": feats, "nontrivial": len(ss) > 0 and n > 0}
 
 
+# ----------------------------------------------------------------------------
+# the other model classes: pickle / copy / deepcopy
+
+def build_qm(c, e, dtype=None):
+    qm = dimod.QuadraticModel(dtype=np.dtype(dtype or c.get("dtype", 'float64')))
+    for l, (vt, lb, ub) in zip(c["labels"], c["vts"]):
+        kw = {}
+        if lb is not None:
+            kw = {"lower_bound": lb, "upper_bound": ub}
+        qm.add_variable(vt, dec_label(l), **kw)
+    for l, b in e["lin"]:
+        qm.add_linear(dec_label(l), float(F(b)))
+    for u, v, b in e["quad"]:
+        qm.add_quadratic(dec_label(u), dec_label(v), float(F(b)))
+    qm.offset = float(F(e["off"]))
+    return qm
+
+
+def build_model(c):
+    cls = c["cls"]
+    if cls == 'qm':
+        return build_qm(c, c["obj"])
+    if cls == 'cqm':
+        cqm = dimod.ConstrainedQuadraticModel()
+        cqm.set_objective(build_qm(c, c["obj"], 'float64'))
+        for k in c["cons"]:
+            kw = {}
+            if k["weight"] is not None:
+                kw = {"weight": float(F(k["weight"])), "penalty": k["penalty"]}
+                if k["penalty"] == 'quadratic' and any(vt[0] not in ('BINARY', 'SPIN') for vt in c["vts"]):
+                    kw["penalty"] = 'linear'
+            lab = k["label"]
+            cqm.add_constraint_from_model(build_qm(c, k, 'float64'), k["sense"], float(F(k["rhs"])),
+                                          label=tuple(lab) if isinstance(lab, list) else lab, **kw)
+        if c.get("discrete"):
+            bins = [dec_label(l) for l, vt in zip(c["labels"], c["vts"]) if vt[0] == 'BINARY']
+            if len(bins) >= 2:
+                cqm.add_discrete(bins[:2], label='disc')
+        return cqm
+    if cls == 'dqm':
+        dqm = dimod.DiscreteQuadraticModel()
+        for l, k in zip(c["labels"], c["ncases"]):
+            dqm.add_variable(k, label=dec_label(l))
+        labels = [dec_label(l) for l in c["labels"]]
+        for l, lin in zip(labels, c["dlin"]):
+            dqm.set_linear(l, [float(F(x)) for x in lin])
+        for i, j, entries in c["dquad"]:
+            if entries:
+                dqm.set_quadratic(labels[i], labels[j], {(a, b): float(F(x)) for a, b, x in entries})
+        return dqm
+    if cls == 'poly':
+        terms = {}
+        for t, b in c["terms"]:
+            terms[tuple(dec_label(l) for l in t)] = float(F(b))
+        return dimod.BinaryPolynomial(terms, c["vartype"])
+    return Variables([dec_label(l) for l in c["labels"]])
+
+
+def obs_qm(qm):
+    return {"vars": [(norm_label(v), qm.vartype(v).name, float(qm.lower_bound(v)), float(qm.upper_bound(v))) for v in qm.variables],
+            "lin": [(norm_label(v), float(qm.get_linear(v))) for v in qm.variables],
+            "quad": sorted(((repr(sorted([repr(norm_label(u)), repr(norm_label(v))])), float(b)) for u, v, b in qm.iter_quadratic())),
+            "off": float(qm.offset), "dtype": str(qm.dtype)}
+
+
+def dqm_quad(m, u, v):
+    try:
+        return m.get_quadratic(u, v)
+    except ValueError:      # no interaction between the two variables
+        return {}
+
+
+def obs_model(m):
+    if isinstance(m, dimod.QuadraticModel):
+        return obs_qm(m)
+    if isinstance(m, dimod.ConstrainedQuadraticModel):
+        return {"obj": obs_qm(m.objective),
+                "vars": [(norm_label(v), m.vartype(v).name, float(m.lower_bound(v)), float(m.upper_bound(v))) for v in m.variables],
+                "cons": [(repr(lab), obs_qm(k.lhs), k.sense.value, float(k.rhs)) for lab, k in m.constraints.items()],
+                "soft": sorted((repr(lab), float(s.weight), str(s.penalty)) for lab, s in m._soft.items()),
+                "discrete": sorted(repr(x) for x in m.discrete)}
+    if isinstance(m, dimod.DiscreteQuadraticModel):
+        vs = list(m.variables)
+        return {"vars": [(norm_label(v), m.num_cases(v)) for v in vs],
+                "lin": [[float(x) for x in m.get_linear(v)] for v in vs],
+                "quad": [(repr(norm_label(u)), repr(norm_label(v)), sorted((k, float(b)) for k, b in dqm_quad(m, u, v).items()))
+                         for i, u in enumerate(vs) for v in vs[i + 1:] if dqm_quad(m, u, v)],
+                "off": float(m.offset)}
+    if isinstance(m, dimod.BinaryPolynomial):
+        return {"terms": sorted((sorted(repr(norm_label(v)) for v in t), float(b)) for t, b in m.items()), "vartype": m.vartype.name}
+    return {"labels": [norm_label(v) for v in m], "types": [type(v).__name__ for v in m]}
+
+
+def run_model(c):
+    feats = {"kind": "model", "cls": c["cls"], "route": c["route"]}
+    m = build_model(c)
+    before = obs_model(m)
+    route = c["route"]
+    try:
+        if route.startswith('pickle'):
+            new = pickle.loads(pickle.dumps(m, protocol=int(route[6:])))
+        elif route == 'deepcopy':
+            new = copy.deepcopy(m)
+        elif route == 'copy':
+            new = copy.copy(m)
+        else:
+            new = m.copy()
+    except Exception as e:
+        return {"py_fail": f"{type(m).__name__} round trip ({route}) raised {type(e).__name__}: {e}", "features": feats}
+    if type(new) is not type(m):
+        return {"py_fail": f"{type(m).__name__} ({route}) came back as {type(new).__name__}", "features": feats}
+    try:
+        after = obs_model(new)
+        again = obs_model(m)
+    except Exception as e:
+        return {"py_fail": f"the {type(m).__name__} that came back ({route}) cannot be observed: {type(e).__name__}: {e}", "features": feats}
+    py_fail = None
+    if after != before:
+        k = next(k for k in before if before[k] != after.get(k))
+        py_fail = f"{type(m).__name__} ({route}): {k} {before[k]!r} -> {after.get(k)!r}"
+    elif again != before:
+        py_fail = f"{type(m).__name__} ({route}) changed the original"
+    elif route != 'copy' and not isinstance(m, (Variables, dimod.BinaryPolynomial)) and len(before.get("vars", [])):
+        # independence of the copy: a change to it does not reach the original
+        try:
+            if isinstance(new, dimod.QuadraticModel):
+                new.offset = new.offset + 1
+                new.set_linear(new.variables[0], 77.0)
+            elif isinstance(new, dimod.ConstrainedQuadraticModel):
+                new.objective.offset = new.objective.offset + 1
+            elif isinstance(new, dimod.DiscreteQuadraticModel):
+                new.offset = new.offset + 1
+            if obs_model(m) != before:
+                py_fail = f"{type(m).__name__} ({route}): changing the copy changed the original"
+        except Exception as e:
+            py_fail = f"{type(m).__name__} ({route}): the copy cannot be modified: {type(e).__name__}: {e}"
+    return {"coq": None, "py_fail": py_fail, "features": feats, "nontrivial": bool(c["labels"])}
+
+
 def run_case(c):
     k = c["kind"]
+    if k == "model":
+        return run_model(c)
     if k == "bqm":
         # the original model must be observable (else: harness error); a failure while observing what
         # came back is a property failure (e.g. an internally inconsistent label table)
